@@ -29,6 +29,7 @@ RULE = (
     "name lengths 0..40 (reply residues), root key id given/not, server given / discovered through scripted DNS, security in {real NTLM over TCP, "
     "real SPNEGO over TCP, scripted context in memory}); each case is run through the sync and the async API. distinct = digest of the case tuple; "
     "non-trivial = all (the repository's suite never executes the online path)"
+    " Also: ISD ports with 1..5 digits; 2-6 async calls in flight at once with independent caches (scripted and real NTLM)."
 )
 ASSUMPTIONS = [
     "the reference DC implements MS-GKDI 3.1.4.1 / MS-RPCE as transcribed in vf/refdc (its key material is calibrated: the reference decrypts the 16 Windows blobs)",
